@@ -277,7 +277,7 @@ V("C01/gen/dispatch", ["C01", "C06", "C07"], "movegen.vspec",
   ["movegen::MoveGenImpl::gen", "movegen::MoveGenImpl::gen_brq", "movegen::MoveGenImpl::gen_for_has_legal_moves", "movegen::MoveGenImpl::gen_all", "movegen::MoveGenImpl::gen_capture",
    "movegen::MoveGenImpl::gen_simple", "movegen::MoveGenImpl::gen_simple_no_promote", "movegen::MoveGenImpl::gen_simple_promote"],
   "for every sink and every board: gen_all / gen_capture / gen_simple / gen_simple_no_promote / gen_simple_promote run exactly the move classes the property assigns to them (all; captures incl. en passant and capture-promotions; non-captures incl. castling; the same without / only straight promotions), each class once, and on a refused push stop inside that class; gen_for_has_legal_moves runs every class except castling",
-  assumes=GEN_ALL + ["C01/gen/allowed-mask"])
+  assumes=GEN_ALL + ["C01/gen/allowed-mask"], rlimit=300)
 
 V("C17/walker/verus", ["C17", "C04"], "walker.vspec",
   ["Walker::len", "Walker::is_empty", "Walker::pos", "Walker::set_board_pos", "Walker::next", "Walker::prev", "Walker::start", "Walker::end"],
